@@ -1,0 +1,18 @@
+//go:build verif
+
+// Contracts for this header-sync router, read by /verif/gocv.
+package neo3legacy
+
+//@ func (*Neo3Handler).SyncGenesisHeader
+//@   property C18
+//@   mode abstract
+//@   modifies Store
+//@   requires native != nil && native.tx != nil
+//@   ghost var wit bool = false
+//@   ghost var op [20]byte
+//@   set after "operatorAddress, err := node_manager.GetCurConOperator(native)" : op := operatorAddress
+//@   set after "err = utils.ValidateOwner(native, operatorAddress)" : wit := err == nil
+//@   -- the address that must witness is the consensus operator just derived from the current validators
+//@   callsite[c18-operator] ValidateOwner#1 requires arg1 == op
+//@   -- installing a trust root changes storage only with the operator's witness
+//@   ensures[c18-witness] Store != old(Store) ==> wit
